@@ -729,7 +729,7 @@ mod c08 {
     /// proved to accept only when the gate holds for ITS triple (`C08.<cmd>.ok_only_through_gate`).
     pub(super) fn triple(cmd: u8) -> (u8, u8, u8) {
         match cmd {
-            0 => (0, ROOT, ROOT),                                  // AddTrustedRootCertificate
+            0 => (0, ROOT | NOC_A | NOC_U, ROOT),                  // AddTrustedRootCertificate (not after a NOC command: fix 62b885d)
             1 => (0, CSR_A | CSR_U, CSR_A),                        // CSRRequest
             2 => (0, CSR_A | CSR_U, CSR_U),                        // CSRRequest(isForUpdateNOC)
             3 => (ROOT | CSR_A, NOC_A | CSR_U | NOC_U, NOC_A),     // AddNOC
@@ -792,7 +792,7 @@ mod c08 {
 
     // TIER: quick
     // KIND: complete
-    /// D12 candidate: the prescribed order has no AddTrustedRootCertificate after a NOC command.
+    /// The prescribed order has no AddTrustedRootCertificate after a NOC command (found refuted on the original tree, fixed in /repo 62b885d).
     #[kani::proof]
     #[kani::unwind(8)]
     fn c08_d12_root_cert_not_after_noc_command() {
